@@ -71,6 +71,36 @@ def locus_of(b):
     return "%s|%s" % (b["kind"], w)
 
 
+# encoders that receive a pointer (addressable value: offset based plans, pointer-receiver methods reachable)
+ADDRESSABLE = {"oj.JSON/ptr", "oj.JSON/indent", "oj.Write/wl40", "sen.String/ptr", "sen.Write/wl7", "alt.Decompose/ptr"}
+FAIL_CLASSES = {"nil-embedded-pointer": {"nil-embedded-indirection", "empty-output"},
+                "named-scalar": {"interface-conversion", "empty-output"},
+                "custom": {"reflect.Value.Addr_of_unaddressable_valu", "empty-output"},
+                "time-field": {"reflect.Value.Addr_of_unaddressable_valu", "empty-output"}}
+
+
+def as_implemented(b, api, loc):
+    """Deviations the trace specification classifies as one of the as-implemented readings (root causes that are recorded
+    as known findings) are keyed by the root cause instead of by encoder and cell: one known entry per root cause. The
+    classification is the specification's (trigger / key-collision context / as-implemented:* verdicts); anything else in
+    the same cell keeps its per-encoder key and stays a violation."""
+    d, w = b["d"], js(b["w"])
+    if b["kind"] == "fails" and d["ctx"] in FAIL_CLASSES and msg_class(b["m"]) in FAIL_CLASSES[d["ctx"]]:
+        if d["ctx"] == "nil-embedded-pointer":
+            return "(any encoder)", "as-implemented|fails|nil-embedded-pointer"
+        if api not in ADDRESSABLE and not api.startswith("pretty."):
+            return "(any encoder, value source)", "as-implemented|fails|" + d["ctx"]
+        if api.startswith("pretty."):          # pretty goes through alt.Decompose of the value
+            return "(any encoder, value source)", "as-implemented|fails|" + d["ctx"]
+    if d["ctx"] == "key-collision":
+        return "(any encoder)", "as-implemented|key-collision"
+    if w == "as-implemented:time-field":
+        return "(decompose family)", "as-implemented|time-field"
+    if w == "as-implemented:sen-bare-literal":
+        return api, "as-implemented|sen-bare-literal"
+    return api, loc
+
+
 def witness_of(case):
     o = case.get("o") or {}
     fl = [k for k in ("tags", "exact", "onil", "oempty", "nest", "sort") if o.get(k)]
@@ -118,8 +148,9 @@ def judge(ctx, cases, masks="one"):
             continue
         loc = locus_of(b)
         for api in b["as"]:
-            recs.append({"api": api, "kind": b["kind"], "locus": loc, "witness": witness_of(case), "case": case,
-                         "detail": {"w": b["w"], "field": b["d"], "opts": b["o"], "m": b["m"]}})
+            a2, l2 = as_implemented(b, api, loc)
+            recs.append({"api": a2, "kind": b["kind"], "locus": l2, "witness": witness_of(case), "case": case,
+                         "detail": {"w": b["w"], "field": b["d"], "opts": b["o"], "m": b["m"], "encoder": api}})
     if res["nbad"] > len(res["bad"]):
         ctx.cov["deviations_beyond_cap"] = ctx.cov.get("deviations_beyond_cap", 0) + res["nbad"] - len(res["bad"])
     # validity of every distinct JSON text the encoders produced: JsonText must accept it
